@@ -31,6 +31,11 @@ RULE = ("command line of 1-6 arguments, each in a generated delivery form (plain
         "with the model; non-trivial = some value has a character outside [A-Za-z0-9_./-]; distinct = hash of (source line)")
 
 SAFE = "abcxyzABC019_./-"
+# characters that are not identifier characters but are ordinary parts of a bare word
+SYMBOLS = ["☃", "€", "😀", "…", "—", "£", "©", "→", "§", "°", "«", "»", "·", "¿", "“", "”", "×", "÷", "¬", "¦", "\\", "é", "中"]
+NUMLIKE = ["½", "²", "①", "٣", "３"]      # non-ASCII numeric characters (recorded finding C04-F3 at the start of a word piece)
+# command words: the recording alias directly, or reached through list aliases (own words come first)
+CMD_WORDS = {"rec": [], "recl": ["-own"], "recl2": ["-own", "--two"], "recl3": ["-own", "~own", "$EVAR"]}
 PLAIN_EXTRA = "=,:+%^"
 NASTY = list(" \t\n'\"\\*?[]{}~$!#&|;<>()@%`^=,:") + ["é", "ß", "中", "\U0001f600", "​", "\x01", "\x7f", "́"]
 HOME_MARK = "<HOME>"
@@ -56,6 +61,12 @@ def _setup(scratch):
     rec = session.Recorder()
     XSH.aliases["rec"] = rec.make("rec")
     XSH.aliases["rec2"] = rec.make("rec2")
+    XSH.aliases["recl"] = ["rec", "-own"]
+    XSH.aliases["recl2"] = ["recl", "--two"]
+    XSH.aliases["recl3"] = ["rec", "-own", "r'~own'", "r'$EVAR'"] if False else ["rec", "-own", "~own", "$EVAR"]
+    XSH.aliases["vargvl"] = ["vargv", "-own"]
+    XSH.aliases["vargvl2"] = ["vargvl", "--two"]
+    XSH.aliases["vargvl3"] = ["vargv", "-own", "~own", "$EVAR"]
     XSH.aliases["emit"] = lambda args, stdin=None, stdout=None: (stdout.write(" ".join(args) + "\n"), 0)[1]
     os.environ["HOME"] = XSH.env["HOME"]
     _state["open"] = {e["id"] for e in common.load_known(PROP) if e.get("status") == "open"}
@@ -195,6 +206,25 @@ class ArgGen:
     def arg(self):
         """-> (source text, [expected argv items], labels) or None (draw avoided)."""
         form = self.k(16)
+        if form == 0 and self.k(3) == 0:
+            # a bare word with symbol characters (currency, emoji, typographic punctuation, backslash)
+            parts = [self.pick("abcx019") for _ in range(1 + self.k(3))]
+            for _ in range(1 + self.k(3)):
+                pos = self.k(len(parts) + 1)
+                ch = self.pick(SYMBOLS)
+                if self.k(12) == 0:
+                    ch = self.pick(NUMLIKE)
+                parts.insert(pos, ch)
+            w = "".join(parts)
+            if w.endswith("\\") or w.startswith(("\\", "~")):
+                return None
+            # a non-ASCII numeric character that starts a word piece (after a non-alphanumeric neighbour) is finding F3
+            f3 = any(ch in NUMLIKE and (i == 0 or not w[i - 1].isalnum()) for i, ch in enumerate(w))
+            if f3 and "C04-F3" in _state.get("open", ()) and self.k(3) != 0:
+                if self.stats is not None:
+                    self.stats.excluded_known["C04-F3"] += 1
+                return None
+            return w, [w], ["form:symbol-word"]
         if form == 0:
             w = "".join(self.pick(SAFE + PLAIN_EXTRA) for _ in range(1 + self.k(6)))
             if w[0] in "=,:+%^._" or w in ("and", "or", "not") or w[-1] == "\\" or w.startswith("~"):
@@ -324,16 +354,36 @@ class ArgGen:
             exp.extend(e)
             labels.extend(lab)
         sep = lambda: self.pick([" ", " ", "  ", "\t"])  # noqa: E731
-        src = "rec" + "".join(sep() + a for a in args)
-        expect = [("rec", exp)]
+        cmdw = self.pick(["rec", "rec", "rec", "recl", "recl2", "recl3"])
+        own = list(CMD_WORDS[cmdw])
+        if cmdw == "recl3":
+            own = ["-own", "~own", "1 2"]          # the alias's *own* words are expanded (documented), the user's are not re-expanded
+            labels.append("cmd:list-alias-expanding")
+        elif cmdw != "rec":
+            labels.append("cmd:list-alias")
+        seps = []
+        f4_shape = False
+        for a in args:
+            sp = sep()
+            if a[:1] in SYMBOLS or a[:1] in NUMLIKE:
+                # recorded finding C04-F4: a symbol-initial bare word is only read correctly after exactly one blank
+                if sp != " " and "C04-F4" in _state.get("open", ()) and self.k(6) != 0:
+                    sp = " "
+                    if self.stats is not None:
+                        self.stats.excluded_known["C04-F4"] += 1
+                if sp != " ":
+                    f4_shape = True
+            seps.append(sp)
+        src = cmdw + "".join(sp + a for sp, a in zip(seps, args))
+        expect = [("rec", own + exp)]
         if shape == 1:
             a2 = self.arg()
-            if a2 is None or a2[2][0] == "form:glued":
+            if a2 is None or a2[2][0] in ("form:glued", "form:symbol-word"):
                 return None
             src += " | rec2 " + a2[0]
             expect.append(("rec2", a2[1]))
             labels += a2[2] + ["pipe"]
-        return {"src": src, "expect": expect, "labels": labels, "ctx": dict(self.ctx), "args": meta}
+        return {"src": src, "expect": expect, "labels": labels, "ctx": dict(self.ctx), "args": meta, "cmd": cmdw, "own": own, "f4_shape": f4_shape}
 
 
 # ----------------------------------------------------------------------------------------
@@ -354,8 +404,11 @@ def run_line(src, ctx, child=False):
         XSH.env["VARGV_OUT"] = st["out"]
         if " | rec2 " in src:
             src = src.replace(" | rec2 ", " | vargv ", 1)      # only the last stage is the external helper
-        elif src.startswith("rec"):
-            src = "vargv" + src[3:]
+        else:
+            for a, b in (("recl3", "vargvl3"), ("recl2", "vargvl2"), ("recl", "vargvl"), ("rec", "vargv")):
+                if src.startswith(a) and src[len(a):len(a) + 1] in (" ", "\t", "!"):
+                    src = b + src[len(a):]
+                    break
     old = sys.stderr
     sys.stderr = io.StringIO()
     try:
@@ -428,8 +481,11 @@ def classify(case, got, want):
                 return "C04-F1"
             return None
     g, w = got[0][1], want[0][1]
+    own = case.get("own") or []
+    if g[:len(own)] != own:
+        return None
     # walk the arguments form by form; glued forms may change the *number* of delivered items
-    gi = 0
+    gi = len(own)
     reasons = set()
     for m in meta:
         exp = m["exp"]
@@ -463,6 +519,23 @@ def classify(case, got, want):
             reasons.add("C04-F1")
             gi += 1
             continue
+        if m["form"] == "form:symbol-word" and any(ch in NUMLIKE for ch in exp[0]):
+            # F3: the piece starting at the numeric character is replaced by the tokenizer's error text;
+            # resynchronise on the next argument
+            nxt = None
+            idx = meta.index(m)
+            for later in meta[idx + 1:]:
+                if later["exp"]:
+                    nxt = later["exp"][0]
+                    break
+            if gi < len(g) and "Unexpected token: TokenInfo" in g[gi]:
+                j = gi + 1
+                remaining_expected = sum(len(x["exp"]) for x in meta[idx + 1:])
+                while len(g) - j > remaining_expected and (nxt is None or g[j] != nxt):
+                    j += 1
+                reasons.add("C04-F3")
+                gi = j
+                continue
         return None
     if gi != len(g) or len(reasons) != 1:
         return None
@@ -474,9 +547,13 @@ def check_case(case, child_too=True):
     want = [(n, list(a)) for n, a in case["expect"]]
     got = run_line(src, ctx)
     if isinstance(got, tuple):
-        return Failure("error:" + got[0], case, "line did not run: %s: %s" % got, bucket="error:" + got[0])
+        fid = "C04-F4" if (case.get("f4_shape") and got[0] in ("SyntaxError", "CalledProcessError", "XonshError")) else None
+        return Failure("error:" + got[0], case, "line did not run: %s: %s" % got, finding=fid, bucket=fid or ("error:" + got[0]))
     if sorted(got) != sorted(want):
-        return Failure("argv-differs", case, "alias argv %r, model %r" % (got, want), finding=classify(case, got, want))
+        fid = classify(case, got, want)
+        if fid is None and case.get("f4_shape") and any("\t" in a or "  " in a for _n, argv in got for a in argv):
+            fid = "C04-F4"      # the separating whitespace was glued into the word
+        return Failure("argv-differs", case, "alias argv %r, model %r" % (got, want), finding=fid, bucket=fid)
     if child_too and "\x00" not in src:
         cgot = run_line(src, ctx, child=True)
         if isinstance(cgot, tuple):
